@@ -259,6 +259,60 @@ theorem totalStress_magnitude_rot (p : GenP ℝ) (θ0 : ℝ) (om df : List ℝ) 
         refine Eq.trans ?_ (Eq.trans hn ?_) <;> (congr 1; ring)
 
 
+/-- the total stress as a vector (east, north): resolved + tail + viscous; `none` where the tail fails -/
+noncomputable def totalStressVec (p : GenP ℝ) (g : Grid ℝ) (kin : Kin ℝ) (E : List (List ℝ)) (w : Wind ℝ) (z0 : ℝ) : Option (ℝ × ℝ) :=
+  let ustar := frictionVelocity p w z0
+  let r := resolvedStress p g kin (st4Input rfloor p g kin E w z0)
+  match wamTail p g E w z0 with
+  | none => none
+  | some t =>
+    let visc := p.viscous * p.rhoAir * ustar * p.nuAir / p.kappa / z0
+    some (r.1 + t.1 + visc * Transc.cos (deg2rad w.dirDeg), r.2 + t.2 + visc * Transc.sin (deg2rad w.dirDeg))
+
+/-- the model's `totalStress` reports the magnitude and the direction of that vector -/
+theorem totalStress_of_vec (p : GenP ℝ) (g : Grid ℝ) (kin : Kin ℝ) (E : List (List ℝ)) (w : Wind ℝ) (z0 : ℝ)
+    (hu : (frictionVelocity p w z0 == 0) = false) :
+    totalStress rfloor p g kin E w z0 = (totalStressVec p g kin E w z0).map fun v =>
+      (Transc.sqrt (v.2 * v.2 + v.1 * v.1), some (mod360 rfloor (Transc.atan2 v.2 v.1 * ((180 : ℕ) : ℝ) / Transc.pi))) := by
+  simp only [totalStress, totalStressVec, hu]
+  cases wamTail p g E w z0 with
+  | none => rfl
+  | some t => rfl
+
+/-- **the total stress vector rotates with the sea and the wind** (and fails for the rotated input
+exactly when it fails for the original) -/
+theorem totalStressVec_rot (p : GenP ℝ) (θ0 : ℝ) (om df : List ℝ) (kin : Kin ℝ) (rows : List (Fin N → ℝ))
+    (w : Wind ℝ) (z0 : ℝ) (k : Fin N) :
+    OptRot ((k : ℕ) * dθ N) (totalStressVec p (uniformGrid (N := N) θ0 om df) kin (fieldOf rows) w z0)
+      (totalStressVec p (uniformGrid (N := N) θ0 om df) kin (fieldOf (rotField k rows)) (turnWind k w) z0) := by
+  have hu : frictionVelocity p (turnWind k w) z0 = frictionVelocity p w z0 := rfl
+  obtain ⟨S, hS, hS'⟩ := st4Input_turn p θ0 om df kin rows w z0 k
+  have hr := resolvedStress_rot p θ0 om df kin S k
+  have ht := wamTail_rot p θ0 om df rows w z0 k
+  simp only [totalStressVec, hu, hS, hS']
+  revert ht
+  cases wamTail p (uniformGrid (N := N) θ0 om df) (fieldOf rows) w z0 with
+  | none =>
+    cases wamTail p (uniformGrid (N := N) θ0 om df) (fieldOf (rotField k rows)) (turnWind k w) z0 with
+    | none => intro _; trivial
+    | some t' => intro h; exact absurd h (by simp [OptRot])
+  | some t =>
+    cases wamTail p (uniformGrid (N := N) θ0 om df) (fieldOf (rotField k rows)) (turnWind k w) z0 with
+    | none => intro h; exact absurd h (by simp [OptRot])
+    | some t' =>
+      intro h
+      simp only [OptRot] at h ⊢
+      have hw := (unit_rot w.dirDeg ((k : ℕ) * dθ N)).smul
+        (p.viscous * p.rhoAir * frictionVelocity p w z0 * p.nuAir / p.kappa / z0)
+      have hall := (hr.add h).add hw
+      obtain ⟨h1, h2⟩ := hall
+      dsimp only at h1 h2
+      constructor
+      · simp only [turnWind, Transc.sin, Transc.cos]
+        linear_combination h1
+      · simp only [turnWind, Transc.sin, Transc.cos]
+        linear_combination h2
+
 theorem stressBalance_eq_map (p : GenP ℝ) (g : Grid ℝ) (kin : Kin ℝ) (E : List (List ℝ)) (w : Wind ℝ) (lz : ℝ) :
     stressBalance rfloor p g kin E w lz
       = ((totalStress rfloor p g kin E w (Transc.exp lz)).map Prod.fst).map
